@@ -43,6 +43,7 @@ func isNarrowOrSigned32(t types.Type) bool {
 }
 
 func c16(c *Ctx) {
+	defer c16validateBeforeResult(c)
 	P, R := c.P, c.R
 	R.Explain("R16.1", "narrowing: rfcparser.ParseNumber / ParseNumberN reject, inside their accumulation loop, any value above a constant <= 2^32-1 (so the later conversion of message-set numbers to the 32-bit SeqID/UID is lossless); every conversion to a 32-bit id type in internal/state has an operand that is a parsed SeqNum, a length/index, a constant or already 32 bits wide.")
 	R.Explain("R16.2", "every consumer of resolveSeqInterval checks both ends of every interval against the view (getWithSeqID / existsWithSeqID) before using it: either inside the same loop iteration, dominating the use, or in a universal check loop that returns an error.")
@@ -820,4 +821,36 @@ func sliceAliases(S ssa.Value) map[ssa.Value]bool {
 		}
 	}
 	return out
+}
+
+// c16validateBeforeResult (R16.5): no shortcut around the resolution of the set.
+func c16validateBeforeResult(c *Ctx) {
+	P, R := c.P, c.R
+	R.Explain("R16.5", "the shared entry point snapshot.getMessagesInRange hands out messages only after the whole set was resolved: every nil-error return is dominated by the call of resolveSeqInterval / resolveUIDInterval (whose consumers validate each member, R16.2); a fast path in front of it answers OK for sets with an invalid member.")
+	f := c.fn("R16.5", "internal/state.(*snapshot).getMessagesInRange")
+	if f == nil {
+		return
+	}
+	var res []ssa.Instruction
+	for _, cs := range engine.Calls(f) {
+		if sc := cs.Common().StaticCallee(); sc != nil && (engine.ShortName(sc) == "resolveSeqInterval" || engine.ShortName(sc) == "resolveUIDInterval" || engine.ShortName(sc) == "getMessagesInSeqRange" || engine.ShortName(sc) == "getMessagesInUIDRange") && cs.Instr.Parent() == f {
+			res = append(res, cs.Instr)
+		}
+	}
+	n := 0
+	for _, ret := range engine.Returns(f) {
+		r0 := engine.ResultOf(ret, 0)
+		if engine.IsNilConst(r0) {
+			continue // error path: no messages handed out
+		}
+		n++
+		ok := false
+		for _, r := range res {
+			if engine.InstrDominates(r, ret) {
+				ok = true
+			}
+		}
+		R.Check(ok, "R16.5", c.name(f)+"|success return", P.Pos(ret.Pos()), "the set was resolved (and thereby validated) first", "getMessagesInRange can return messages without having resolved the set: a member beyond the view (or malformed) is no longer refused and the command acts on other messages than named")
+	}
+	R.Min("R16.5", "success returns of getMessagesInRange", n, 1)
 }
